@@ -104,7 +104,7 @@ func genCase(user bool) func(t *rapid.T) Case {
 		if cfg.Formats && rapid.IntRange(0, 3).Draw(t, "formatopt") != 0 {
 			c.Opts = append(c.Opts, opt.B("ExperimentalSupportFormatTag", true))
 		}
-		vc := tv.ValCfg{BadUTF8: true, NonFinite: true, AnyDescs: anyCfg, RawInvalid: true, PoolGen: poolGen, TimeWide: true, Zones: true}
+		vc := tv.ValCfg{BadUTF8: true, NonFinite: true, AnyDescs: anyCfg, RawInvalid: true, PoolGen: poolGen, TimeWide: true, Zones: true, FallbackCollide: true}
 		if user {
 			vc.AnyKeyPool = poolKeys
 		}
